@@ -610,8 +610,10 @@ def run_case(case, obs):
             # (the absolute-eps cut-off of the fractional matrix power, which made tiny-scale data a
             # separate mechanism, was repaired in the repository: scale no longer matters, only cond(C))
         for i in range(nf):
-            if alphas[i] < 1 - 1e-12 and conds[i] ** (1 - alphas[i]) > 1e8 and not cov_tiny:
-                obs.ambiguous(f"field {i}: cond(C)^(1-alpha) = {conds[i] ** (1 - alphas[i]):.2e}")
+            if alphas[i] < 1 - 1e-12 and (conds[i] ** (1 - alphas[i]) > 1e8 or conds[i] > 1e10) and not cov_tiny:
+                # numerically singular covariance (e.g. an unpadded analytic signal of n samples spans only ~n/2
+                # dimensions): which eigen-directions the fractional power keeps is a rank decision, not unique
+                obs.ambiguous(f"field {i}: cond(C) = {conds[i]:.2e}, cond(C)^(1-alpha) = {conds[i] ** (1 - alphas[i]):.2e}")
     if rot:
         if kmax < 2:
             obs.refuse("a rotation needs at least two modes (documented refusal)")
